@@ -8,6 +8,7 @@ import (
 	"flag"
 	"fmt"
 	"os"
+	"runtime/pprof"
 	"strings"
 	"time"
 
@@ -48,7 +49,13 @@ func main() {
 		budget := fs.Int("budget", 0, "seconds")
 		out := fs.String("out", "-", "")
 		nocache := fs.Bool("nocache", false, "")
+		prof := fs.String("cpuprofile", "", "")
 		_ = fs.Parse(os.Args[2:])
+		if *prof != "" {
+			f, _ := os.Create(*prof)
+			_ = pprof.StartCPUProfile(f)
+			defer pprof.StopCPUProfile()
+		}
 		switch *kind {
 		case "sched":
 			sc := findScenario(*prop, *tier, *name)
